@@ -256,7 +256,14 @@ func BuildCR3(r *core.Rng, p CR3Parts, noise int, large64 bool) CR3 {
 	}
 	moov := &Box{Type: "moov", Kids: sprinkle(moovKids), Large: lg(), Tag: "moov"}
 	named["moov"] = moov
-	top := []*Box{Ftyp("crx ", 1, "crx ", "isom")}
+	brands := []string{"crx ", "isom"}
+	if p.OddSiblings || p.Align > 0 {
+		// any number of compatible brands (legal; cameras write two)
+		for k := r.Pick(0, 0, 1, 6, 7, 8, 9, 12, 30); k > 0; k-- {
+			brands = append(brands, r.PickStr("isom", "iso2", "mp41", "crx ", "heic", "mif1", "avif", "abcd"))
+		}
+	}
+	top := []*Box{Ftyp("crx ", 1, brands...)}
 	top = append(top, moov)
 	if p.XMP != nil {
 		xp := &Box{Type: "uuid", UUID: UUIDXPacket, Payload: p.XMP, Large: lg(), Tag: "xpacket"}
